@@ -29,6 +29,17 @@ class WApp:
         if api == "delegate":
             kw["delegate"] = self
         self.w = wmod.create(appid, url, world.reactor, **kw)
+        self.binputs = []         # Boss inputs in processing order: (step, old_state, input)
+        self.inbound = []         # server messages in the order the client processed them
+
+        def tracer(old_state, input, new_state):
+            self.binputs.append((world.step, old_state, input))
+            return None
+        try:
+            self.w._boss.set_trace(tracer)
+            self.w._boss._RC._debug_record_inbound_f = lambda msg: self.inbound.append((world.step, msg))
+        except Exception:
+            pass
         if api == "deferred" and subscribe:
             w = self.w
             w.get_welcome().addCallbacks(lambda v: self._ev("welcome", v), lambda f: self._err("welcome", f))
